@@ -49,6 +49,10 @@ func Dispatch() bool {
 		ReplayMain(os.Args[2])
 		return true
 	}
+	if len(os.Args) > 4 && os.Args[1] == "confirm" {
+		explore.ConfirmMain(os.Args[2:])
+		return true
+	}
 	if len(os.Args) > 2 && os.Args[1] == "trace" {
 		TraceMain(os.Args[2])
 		return true
